@@ -510,13 +510,14 @@ class Session:
                 raise core.MachineryError("file-object kind %r does not read a path" % (kind,))
             fo, self.closers = fobj.open_kind(ctx, arch.forms(ctx), kind,
                                               path=(path or arch.file(ctx)) if mode == "fileobj" else None)
-            if fsep:
-                fo = self.proxy = fobj.FaultProxy(fo)
             kinds = ctx.extra.setdefault("file_object_kinds", {})
             kinds[kind] = kinds.get(kind, 0) + 1
             rel = ctx.extra.setdefault("file_object_descriptor_vs_stream", {})
             r = fobj.fd_relation(fo, len(arch.blob))
             rel[r] = rel.get(r, 0) + 1
+            if fsep:
+                fo = self.proxy = fobj.FaultProxy(fo)
+                count(ctx, "file_object_kinds_behind_fault_proxy", kind)
         try:
             if fo is not None and self.proxy is not None and int(fl or 0) > 0:
                 self.ar = self.open_with_fault(ctx, arch, fo, n, int(fl))
@@ -1981,6 +1982,8 @@ def run_binding(ctx, quick, rng):
                     continue                  # quick: fault edges alternate between the canonical and the random concretization
                 if quick or j > 0:
                     todo = [pick_mode(idx + j, conc.arch, sparse=True)]
+                elif e["op"] == "fault":
+                    todo = [pick_mode(0, conc.arch, flaky=True)]   # (a by-name archive has no caller-supplied file object)
                 else:
                     todo = [pick_mode(0, conc.arch), "byname"]     # thorough: the canonical concretization in both modes
                 for mode in todo:
@@ -2064,7 +2067,7 @@ def run_binding(ctx, quick, rng):
     n_big = big_leg(ctx, rng, 30 if quick else 400, 40 if quick else 60)
     ctx.traces += n_big
     phase("size_stress_leg")
-    ctx.traces += fault_leg(ctx, rng, 800 if quick else 6000, 13)
+    ctx.traces += fault_leg(ctx, rng, 800 if quick else 4000, 13)
     phase("fault_leg")
     ctx.traces += aligned_leg(ctx, rng, quick)
     phase("aligned_leg")
